@@ -52,7 +52,24 @@ var (
 	c30X  = addr.MustParseIA("1-ff00:0:199") // does not exist
 )
 
-type c30Link struct{ a, b addr.IA } // interface numbers: 2*i+1 at a, 2*i+2 at b
+type c30Link struct {
+	a, b     addr.IA
+	ifA, ifB uint16 // interface number of the link at a / at b (depends on the world's numbering scheme)
+}
+
+type c30IfRef struct {
+	ia addr.IA
+	id uint16
+}
+
+// interface numbering schemes
+const (
+	c30NumGlobal   = 0 // every link end has a number that occurs nowhere else
+	c30NumASLocal  = 1 // every AS numbers its interfaces 1,2,3,...: the same numbers recur in every AS
+	c30NumBothEnds = 2 // link i carries the number i+1 at BOTH ends
+)
+
+var c30NumNames = []string{"globally-unique-ifids", "as-local-ifids", "same-ifid-at-both-link-ends"}
 
 type c30SegDef struct {
 	name  string
@@ -62,22 +79,23 @@ type c30SegDef struct {
 }
 
 type c30World struct {
-	name     string
-	local    addr.IA
-	core     bool
-	cores    map[addr.ISD][]addr.IA
-	links    []c30Link
-	segs     []c30SegDef
-	ifOwner  map[uint16]addr.IA
-	ifPeer   map[uint16]uint16
-	dsts     []addr.IA
-	revKeys  []revcache.Key // candidates for revocation events (last one is off-path)
-	revNames []string
+	name      string
+	local     addr.IA
+	core      bool
+	cores     map[addr.ISD][]addr.IA
+	links     []c30Link
+	segs      []c30SegDef
+	numbering int
+	ifLink    map[c30IfRef]int // (AS, interface number) -> link index
+	dsts      []addr.IA
+	revKeys   []revcache.Key // candidates for revocation events (last one is off-path)
+	revNames  []string
 }
 
-func c30NewWorld(localCore, singleCore bool) *c30World {
+func c30NewWorld(localCore, singleCore bool, numbering int) *c30World {
 	w := &c30World{cores: map[addr.ISD][]addr.IA{1: {c30C1, c30C2}, 2: {c30D1, c30D2}},
-		ifOwner: map[uint16]addr.IA{}, ifPeer: map[uint16]uint16{}}
+		numbering: numbering, ifLink: map[c30IfRef]int{}}
+	perAS := map[addr.IA]uint16{}
 	w.local, w.core = c30A, false
 	if localCore {
 		w.local, w.core = c30C1, true
@@ -85,12 +103,22 @@ func c30NewWorld(localCore, singleCore bool) *c30World {
 	if singleCore {
 		w.cores[1] = []addr.IA{c30C1}
 	}
-	w.name = fmt.Sprintf("local=%s(core=%v),isd1-cores=%d", w.local, w.core, len(w.cores[1]))
+	w.name = fmt.Sprintf("local=%s(core=%v),isd1-cores=%d,%s", w.local, w.core, len(w.cores[1]), c30NumNames[numbering])
 	link := func(a, b addr.IA) int {
-		w.links = append(w.links, c30Link{a, b})
-		i := len(w.links) - 1
-		w.ifOwner[uint16(2*i+1)], w.ifOwner[uint16(2*i+2)] = a, b
-		w.ifPeer[uint16(2*i+1)], w.ifPeer[uint16(2*i+2)] = uint16(2*i+2), uint16(2*i+1)
+		i := len(w.links)
+		l := c30Link{a: a, b: b}
+		switch numbering {
+		case c30NumGlobal:
+			l.ifA, l.ifB = uint16(2*i+1), uint16(2*i+2)
+		case c30NumASLocal:
+			perAS[a]++
+			perAS[b]++
+			l.ifA, l.ifB = perAS[a], perAS[b]
+		default:
+			l.ifA, l.ifB = uint16(i+1), uint16(i+1)
+		}
+		w.links = append(w.links, l)
+		w.ifLink[c30IfRef{a, l.ifA}], w.ifLink[c30IfRef{b, l.ifB}] = i, i
 		return i
 	}
 	lC1A, lC1B := link(c30C1, c30A), link(c30C1, c30B)
@@ -119,11 +147,10 @@ func c30NewWorld(localCore, singleCore bool) *c30World {
 	w.dsts = []addr.IA{w.local, c30A, c30B, c30C1, c30C2, c30E, c30D1, c30D2, c30X,
 		addr.MustIAFrom(1, 0), addr.MustIAFrom(2, 0), addr.MustIAFrom(0, 0), addr.MustIAFrom(0, 0xff0000000110)}
 	key := func(l int, atA bool) revcache.Key {
-		id := uint16(2*l + 2)
 		if atA {
-			id = uint16(2*l + 1)
+			return revcache.NewKey(w.links[l].a, iface.ID(w.links[l].ifA))
 		}
-		return revcache.NewKey(w.ifOwner[id], iface.ID(id))
+		return revcache.NewKey(w.links[l].b, iface.ID(w.links[l].ifB))
 	}
 	w.revKeys = []revcache.Key{key(lC1A, false), key(lC1D1, true), key(lD1E, true), key(lC1B, true),
 		revcache.NewKey(c30B, 999)}
@@ -143,9 +170,52 @@ func (w *c30World) isCore(ia addr.IA) bool {
 // ifAt returns the interface number of link l at AS ia.
 func (w *c30World) ifAt(l int, ia addr.IA) uint16 {
 	if w.links[l].a == ia {
-		return uint16(2*l + 1)
+		return w.links[l].ifA
 	}
-	return uint16(2*l + 2)
+	return w.links[l].ifB
+}
+
+// far returns the other end of the link that leaves AS ia through interface id.
+func (w *c30World) far(ia addr.IA, id uint16) (c30IfRef, bool) {
+	l, ok := w.ifLink[c30IfRef{ia, id}]
+	if !ok {
+		return c30IfRef{}, false
+	}
+	if w.links[l].a == ia && w.links[l].ifA == id {
+		return c30IfRef{w.links[l].b, w.links[l].ifB}, true
+	}
+	return c30IfRef{w.links[l].a, w.links[l].ifA}, true
+}
+
+// walk follows the hop fields (ingress, egress in travel direction) from the local AS through the world and
+// returns the traversed interfaces with their AS. Interface numbers are only meaningful inside an AS, so the AS
+// of every hop is derived from the topology, not from the number.
+func (w *c30World) walk(hops [][2]uint16) ([]c30IfRef, addr.IA, error) {
+	cur := w.local
+	var trav []c30IfRef
+	arrived, arrivedIf := false, uint16(0)
+	for i, h := range hops {
+		in, out := h[0], h[1]
+		switch {
+		case in != 0 && (!arrived || in != arrivedIf):
+			return nil, 0, fmt.Errorf("hop %d: ingress %d does not fit (at %s, arrived=%v over %d)", i, in, cur, arrived, arrivedIf)
+		case in == 0 && arrived:
+			return nil, 0, fmt.Errorf("hop %d: ingress 0 although the previous hop left over a link", i)
+		}
+		arrived = false
+		if out != 0 {
+			f, ok := w.far(cur, out)
+			if !ok {
+				return nil, 0, fmt.Errorf("hop %d: %s has no interface %d", i, cur, out)
+			}
+			trav = append(trav, c30IfRef{cur, out}, f)
+			cur, arrived, arrivedIf = f.ia, true, f.id
+		}
+	}
+	if arrived || len(trav) == 0 {
+		return nil, 0, fmt.Errorf("path ends in the middle of a link or has no link")
+	}
+	return trav, cur, nil
 }
 
 // ---- segments with controlled life time ------------------------------------------------------------------
@@ -260,7 +330,7 @@ func (r *c30Resolver) Resolve(_ context.Context, reqs segfetcher.Requests, _ boo
 type c30NextHopper struct{ w *c30World }
 
 func (n c30NextHopper) UnderlayNextHop(id uint16) *net.UDPAddr {
-	if n.w.ifOwner[id] == n.w.local {
+	if _, ok := n.w.ifLink[c30IfRef{n.w.local, id}]; ok {
 		return &net.UDPAddr{IP: net.IPv4(10, 0, 0, byte(id)), Port: 30042}
 	}
 	return nil
@@ -319,9 +389,9 @@ func c30ReqStrings(reqs segfetcher.Requests) []string {
 	return out
 }
 
-// c30Decode reads the raw SCION path (doc/protocols/scion-header.rst) and returns the traversed interfaces in
+// c30Decode reads the raw SCION path (doc/protocols/scion-header.rst) and returns the hop fields' (ingress, egress) in
 // travel order and the earliest hop-field expiry.
-func c30Decode(raw []byte) (ifs []uint16, expiry time.Time, err error) {
+func c30Decode(raw []byte) (ifs [][2]uint16, expiry time.Time, err error) {
 	if len(raw) < 4 {
 		return nil, time.Time{}, fmt.Errorf("short path")
 	}
@@ -353,12 +423,7 @@ func c30Decode(raw []byte) (ifs []uint16, expiry time.Time, err error) {
 			if !consDir {
 				in, out = out, in
 			}
-			if in != 0 {
-				ifs = append(ifs, in)
-			}
-			if out != 0 {
-				ifs = append(ifs, out)
-			}
+			ifs = append(ifs, [2]uint16{in, out})
 		}
 	}
 	return ifs, expiry, nil
@@ -644,21 +709,26 @@ func c30RunHistory(w *c30World, classes []int, hist []c30Ev, st *c30Stats, local
 				bad("path-without-scion-dataplane", fmt.Sprintf("%T", pp.Dataplane()))
 				continue
 			}
-			ifs, expiry, derr := c30Decode(sp.Raw)
-			if derr != nil || len(ifs) < 2 || len(ifs)%2 != 0 {
-				bad("path-dataplane-malformed", fmt.Sprint(derr, ifs))
+			hops, expiry, derr := c30Decode(sp.Raw)
+			if derr != nil {
+				bad("path-dataplane-malformed", fmt.Sprint(derr))
 				continue
 			}
 			// starts at the local AS, every step is a link of the world, consecutive links meet in one AS
-			chainOK := w.ifOwner[ifs[0]] == w.local
-			for k := 0; k+1 < len(ifs) && chainOK; k += 2 {
-				chainOK = w.ifPeer[ifs[k]] == ifs[k+1] && (k == 0 || w.ifOwner[ifs[k-1]] == w.ifOwner[ifs[k]])
-			}
-			if !chainOK || pp.Source() != w.local {
-				bad("path-does-not-start-at-local-as-or-is-not-a-walk", fmt.Sprint(ifs))
+			trav, end, werr := w.walk(hops)
+			if werr != nil || pp.Source() != w.local {
+				bad("path-does-not-start-at-local-as-or-is-not-a-walk", fmt.Sprint(werr, hops))
 				continue
 			}
-			end := w.ifOwner[ifs[len(ifs)-1]]
+			if md := pp.Metadata(); md != nil {
+				same := len(md.Interfaces) == len(trav)
+				for k := 0; same && k < len(trav); k++ {
+					same = md.Interfaces[k].IA == trav[k].ia && uint16(md.Interfaces[k].ID) == trav[k].id
+				}
+				if !same {
+					bad("path-metadata-interfaces-differ-from-dataplane", fmt.Sprint(md.Interfaces, " vs ", trav))
+				}
+			}
 			if pp.Destination() != end {
 				bad("path-destination-field-differs-from-dataplane-end", fmt.Sprintf("field %s, dataplane ends at %s", pp.Destination(), end))
 			}
@@ -675,9 +745,16 @@ func c30RunHistory(w *c30World, classes []int, hist []c30Ev, st *c30Stats, local
 			if md := pp.Metadata(); md != nil && !md.Expiry.After(now) {
 				bad("path-metadata-expiry-in-the-past", md.Expiry.String())
 			}
-			for _, id := range ifs {
-				if revoked(w.ifOwner[id], id) {
-					bad("path-over-revoked-interface", fmt.Sprintf("%s#%d", w.ifOwner[id], id))
+			for k, t := range trav {
+				if revoked(t.ia, t.id) {
+					why := fmt.Sprintf("%s#%d", t.ia, t.id)
+					for _, u := range trav[:k] {
+						if u.id == t.id && u.ia != t.ia {
+							why += fmt.Sprintf(" (the number %d occurs earlier on the path, unrevoked, at %s)", u.id, u.ia)
+							break
+						}
+					}
+					bad("path-over-revoked-interface", why)
 					break
 				}
 			}
@@ -720,11 +797,18 @@ func TestC30(t *testing.T) {
 	type plan struct {
 		devBound, depth int
 		slow            bool
+		numbering       int
 	}
 	plans := mc.Pick(
-		[]plan{{2, 1, false}, {1, 3, false}, {1, 1, true}, {0, 2, true}},
-		[]plan{{1, 4, false}, {3, 1, false}, {2, 3, false}, {1, 2, true}, {2, 1, true}, {0, 3, true}})
-	worlds := []*c30World{c30NewWorld(false, false), c30NewWorld(false, true), c30NewWorld(true, false), c30NewWorld(true, true)}
+		[]plan{{2, 1, false, c30NumGlobal}, {1, 3, false, c30NumASLocal}, {0, 3, false, c30NumGlobal}, {0, 3, false, c30NumBothEnds},
+			{1, 1, true, c30NumBothEnds}, {0, 2, true, c30NumASLocal}},
+		[]plan{{1, 4, false, c30NumASLocal}, {3, 1, false, c30NumGlobal}, {2, 3, false, c30NumBothEnds}, {0, 4, false, c30NumGlobal},
+			{0, 4, false, c30NumBothEnds}, {1, 2, true, c30NumASLocal}, {2, 1, true, c30NumGlobal}, {0, 3, true, c30NumBothEnds}})
+	worldsOf := func(numbering int) []*c30World {
+		return []*c30World{c30NewWorld(false, false, numbering), c30NewWorld(false, true, numbering),
+			c30NewWorld(true, false, numbering), c30NewWorld(true, true, numbering)}
+	}
+	worlds := append(append(worldsOf(c30NumGlobal), worldsOf(c30NumASLocal)...), worldsOf(c30NumBothEnds)...)
 	r.Rule = "4 worlds (local AS core / non-core x ISD 1 with one / two core ASes) x life-time assignments of ALL segments " +
 		"(each of the 6 or 12 segments is live / dead / dying 10.5 s into the history / only-last-hop-dead; all assignments with " +
 		"at most b non-live segments) x ALL histories of at most d events over {revoke one of 4 on-path or 1 off-path interface " +
@@ -740,6 +824,9 @@ func TestC30(t *testing.T) {
 	planInfo := []map[string]any{}
 	for _, pl := range plans {
 		for _, w := range worlds {
+			if w.numbering != pl.numbering {
+				continue
+			}
 			// life-time assignments with at most devBound non-live segments (choice-tree exploration, deviation bounded)
 			var assigns [][]int
 			var amu sync.Mutex
